@@ -1791,6 +1791,20 @@ func DerefFunction(name string) ZlispUserFunction {
 				// handle here or below?
 				default:
 					//P("we have a reflection capable type match!")
+					// the Go types agree (two arrays, two ints); the types
+					// the language sees must agree too: a ([]string) array
+					// (possibly the value of a declared struct field) is
+					// not overwritten in place by [1 2 3].
+					if pt := args[1].Type(); pt != ptr.PointedToType {
+						have, want := "nil", "nil"
+						if pt != nil {
+							have = pt.RegisteredName
+						}
+						if ptr.PointedToType != nil {
+							want = ptr.PointedToType.RegisteredName
+						}
+						return SexpNull, fmt.Errorf("cannot assign type '%v' to type '%v'", have, want)
+					}
 					ptr.ReflectTarget.Elem().Set(rhs.Elem())
 					return
 				}
